@@ -14,6 +14,12 @@ def main(argv):
     prop, tier, seed, shard, nshards, kind, outfile = argv
     seed, shard, nshards = int(seed), int(shard), int(nshards)
     os.environ.setdefault('PYTHONHASHSEED', '0')
+    try:   # a defect (or a mutant) that asks for terabytes must fail fast instead of thrashing the machine
+        import resource
+        lim = int(os.environ.get('VERIF_SHARD_MEM', str(6 << 30)))
+        resource.setrlimit(resource.RLIMIT_AS, (lim, lim))
+    except Exception:
+        pass
     from vp import core, probe
     status = 'ok'
     err = None
